@@ -146,6 +146,12 @@ def materialise(case):
     else:
         style = 'fuzz' if case['cfg'] == 'gen-fuzz' else 'ok'
         names = ['IP%04dT1' % x for x in r.sample(range(1, 9999), 3)]
+        if r.random() < 0.35:
+            # the caller's configuration REDEFINES a table the package also knows, with columns of its own
+            try:
+                names[r.randrange(3)] = r.choice(sorted(packaged_cfg().keys()))
+            except Exception:
+                pass
         cfg = {t: gen_layout(r, style) for t in names}
         if case['cfg'] == 'gen-empty':
             cfg[names[1]] = []
